@@ -87,7 +87,8 @@ def worker(prop, tier, k, n, outpath, base_seed):
     cases = all_cases(mod, tier)
     mine = [c for i, c in enumerate(cases) if i % n == k]
     agg = {'cases': 0, 'classes': {}, 'events': {}, 'nontrivial_keys': [], 'violations': [],
-           'nviol': 0, 'samples': [], 'timeouts': [], 'skipped': 0, 'slowest': [0.0, None, None]}
+           'nviol': 0, 'samples': [], 'timeouts': [], 'skipped': 0, 'slowest': [0.0, None, None], 'known': {}, 'dropped_unexplained': 0}
+    from . import findings
     keys = set()
     persample = {}
     t0 = time.time()
@@ -124,9 +125,15 @@ def worker(prop, tier, k, n, outpath, base_seed):
             c['violating'] += 1
             agg['nviol'] += r['nviol']
             for v in r['violations']:
-                if len(agg['violations']) < MAXV_WORKER:
-                    agg['violations'].append({'class': cls, 'idx': idx, 'seed': r['seed'],
-                                              'desc': r['desc'], 'record': v})
+                # records of listed findings are counted here and only a few are kept: they must never crowd a different violation out of the capped list
+                rec = {'class': cls, 'idx': idx, 'seed': r['seed'], 'desc': r['desc'], 'record': v}
+                fid = findings.classify(prop, rec)
+                if fid:
+                    agg['known'][fid] = agg['known'].get(fid, 0) + 1
+                elif len(agg['violations']) < MAXV_WORKER:
+                    agg['violations'].append(rec)
+                else:
+                    agg['dropped_unexplained'] += 1
     if cov is not None:
         cov.stop(); cov.save()
     agg['nontrivial_keys'] = sorted(keys)
@@ -259,13 +266,17 @@ def main(argv=None):
 
     known = findings.listed(prop)
     known_counts = {k['id']: 0 for k in known}
+    for p in parts:
+        for fid, cnt in p.get('known', {}).items():
+            known_counts[fid] = known_counts.get(fid, 0) + cnt
     unexplained = []
-    for v in viols:
+    for v in viols:          # (workers keep unexplained records only; classified again here so that a stale worker file cannot smuggle one through)
         fid = findings.classify(prop, v)
         if fid:
             known_counts[fid] = known_counts.get(fid, 0) + 1
         else:
             unexplained.append(v)
+    dropped = sum(p.get('dropped_unexplained', 0) for p in parts)
 
     inconclusive = []
     if dead:
@@ -286,10 +297,11 @@ def main(argv=None):
            'monitor_events': events, 'classes': classes,
            'known_findings_observed': known_counts, 'inconclusive': inconclusive,
            'workers': n, 'slowest_case': {'cpu_s': slowest[0], 'class': slowest[1], 'idx': slowest[2], 'watchdog_cpu_s': int(getattr(mod, 'CASE_TIMEOUT', 120))},
+           'unexplained_records_beyond_the_cap': dropped,
            'unexplained_violation_records': len(unexplained),
            'violation_records_total': nviol}
     wall = time.time() - t0
-    write_evidence(mod, tier, base_seed, cov, len(unexplained), wall, list(getattr(mod, 'ASSUMPTIONS', [])))
+    write_evidence(mod, tier, base_seed, cov, len(unexplained) + dropped, wall, list(getattr(mod, 'ASSUMPTIONS', [])))
 
     print('%s tier=%s seed=%d cases=%d distinct_nontrivial=%d wall=%.1fs' %
           (prop, tier, base_seed, ncases, len(keys), wall))
